@@ -204,6 +204,10 @@ func (ex *Exec) stub(st *State, fr *Frame, fn *ssa.Function, args []Value, isDef
 			s = StrV{Obj: a.Obj, Off: a.Off, Len: a.Len}
 		}
 		h := ts.Fresh(64, "hash")
+		// bounded hash range: every residue modulo the table sizes in reach (1, 7, 17) and hence every
+		// collision-chain shape stays reachable, while the solver does not have to divide 64-bit values
+		ex.addPC(st, ts.Ule(h, ts.Const(64, 255)))
+		ex.stats.Assumptions["maphash modelled as an uninterpreted function with values in 0..255"]++
 		var conds []*Term
 		for _, hc := range st.hashes {
 			same := ts.BAnd(ts.Eq(seed, hc.seed), ex.strEq(st, s, hc.s))
